@@ -178,6 +178,10 @@ func (s *s1) checkC03(i int, out *TxnOutcome) {
 			return
 		}
 	}
+	if ref.GCd > 0 || ref.Pruned > 0 {
+		e.Probes["c03_contents_with_gc_or_prune_left_to_C04"]++
+		return
+	}
 	if d := DiffStates(ref.After, out.After, e.Sch.TableNames, nil); d != "" {
 		e.ViolateK("C03.contents", contentsKey(e.Sch, out.Ops, ref.After, out.After), "transaction %d: database contents differ from the RFC 7047 model (model vs database):\n%s\nops: %s\nbefore:\n%s", i, d, shortOps(out.Ops), trimStr(out.Before.String(), 3000))
 		return
@@ -569,6 +573,10 @@ func (s *s1) checkC07(i int, out *TxnOutcome, strict bool) {
 				e.Probes["c07_empty_modify_tolerated"]++
 				continue
 			}
+			if len(ups) != 0 && strict && s.onlyEmptyModifies(o, ups) {
+				e.ViolateK("C11.noop-reported", "empty-modify", "transaction %d leaves a row exactly as it began but monitor %s (%s) was sent %s %s\nops: %s", i, o.spec.Owner, o.spec.Method, ups[0].Method, joinRaw(ups[0].Params), shortOps(out.Ops))
+				return
+			}
 			if len(ups) != 0 {
 				e.Violate("C07.spurious", "transaction %d made no selected change for monitor %s (%s) but it was sent %s %s\nops: %s", i, o.spec.Owner, o.spec.Method, ups[0].Method, joinRaw(ups[0].Params), shortOps(out.Ops))
 				return
@@ -667,8 +675,8 @@ func (s *s1) checkC07(i int, out *TxnOutcome, strict bool) {
 					}
 					for _, c := range ec.Changed {
 						if _, ok := r.Old[c]; !ok {
-							if ec.Old[c].Eq(defaultValue(&e.Sch.Tables[r.Table].Columns[c].Type)) {
-								continue // a column that held its default value may be left out of a row
+							if ct := &e.Sch.Tables[r.Table].Columns[c].Type; ec.Old[c].Eq(defaultValue(ct)) || ec.Old[c].Eq(omittedValue(ct)) {
+								continue // a column that held its default (or no) value may be left out of a row
 							}
 							e.Violate("C07.old-missing", "monitor %s: update of %s/%s does not report the old value of changed column %s\nnotification: %s", o.spec.Owner, r.Table, r.UUID, c, body)
 							return
